@@ -184,5 +184,142 @@ Lemma emit_pc e s : pc (emit e s) = pc s. Proof. reflexivity. Qed.
 Global Hint Rewrite emit_sm emit_wf emit_rf emit_ffd emit_dof emit_ccb emit_detached emit_ndc emit_responded emit_pend emit_idx emit_next emit_cur_exp emit_cur_fr emit_sent emit_exited emit_scq emit_pc : c05.
 Global Arguments emit : simpl never.
 
+(* projections of the core fields through every setter, as rewrite rules (so that proofs do not rely on
+   conversion of large state terms) *)
+Lemma pc_set_sm v s : pc (set_sm v s) = pc s. Proof. reflexivity. Qed.
+Lemma pc_set_wf v s : pc (set_wf v s) = pc s. Proof. reflexivity. Qed.
+Lemma pc_set_rf v s : pc (set_rf v s) = pc s. Proof. reflexivity. Qed.
+Lemma pc_set_ffd v s : pc (set_ffd v s) = pc s. Proof. reflexivity. Qed.
+Lemma pc_set_dof v s : pc (set_dof v s) = pc s. Proof. reflexivity. Qed.
+Lemma pc_set_ccb v s : pc (set_ccb v s) = pc s. Proof. reflexivity. Qed.
+Lemma pc_set_detached v s : pc (set_detached v s) = pc s. Proof. reflexivity. Qed.
+Lemma pc_set_ndc v s : pc (set_ndc v s) = pc s. Proof. reflexivity. Qed.
+Lemma pc_set_responded v s : pc (set_responded v s) = pc s. Proof. reflexivity. Qed.
+Lemma pc_set_pend v s : pc (set_pend v s) = pc s. Proof. reflexivity. Qed.
+Lemma pc_set_idx v s : pc (set_idx v s) = pc s. Proof. reflexivity. Qed.
+Lemma pc_set_next v s : pc (set_next v s) = pc s. Proof. reflexivity. Qed.
+Lemma pc_set_cur_exp v s : pc (set_cur_exp v s) = pc s. Proof. reflexivity. Qed.
+Lemma pc_set_cur_fr v s : pc (set_cur_fr v s) = pc s. Proof. reflexivity. Qed.
+Lemma pc_set_sent v s : pc (set_sent v s) = pc s. Proof. reflexivity. Qed.
+Lemma pc_set_exited v s : pc (set_exited v s) = pc s. Proof. reflexivity. Qed.
+Lemma pc_set_scq v s : pc (set_scq v s) = pc s. Proof. reflexivity. Qed.
+Lemma pc_set_pc v s : pc (set_pc v s) = v. Proof. reflexivity. Qed.
+Lemma pc_on_sm g s : pc (on_sm g s) = pc s. Proof. reflexivity. Qed.
+Lemma ndc_set_sm v s : ndc (set_sm v s) = ndc s. Proof. reflexivity. Qed.
+Lemma ndc_set_wf v s : ndc (set_wf v s) = ndc s. Proof. reflexivity. Qed.
+Lemma ndc_set_rf v s : ndc (set_rf v s) = ndc s. Proof. reflexivity. Qed.
+Lemma ndc_set_ffd v s : ndc (set_ffd v s) = ndc s. Proof. reflexivity. Qed.
+Lemma ndc_set_dof v s : ndc (set_dof v s) = ndc s. Proof. reflexivity. Qed.
+Lemma ndc_set_ccb v s : ndc (set_ccb v s) = ndc s. Proof. reflexivity. Qed.
+Lemma ndc_set_detached v s : ndc (set_detached v s) = ndc s. Proof. reflexivity. Qed.
+Lemma ndc_set_ndc v s : ndc (set_ndc v s) = v. Proof. reflexivity. Qed.
+Lemma ndc_set_responded v s : ndc (set_responded v s) = ndc s. Proof. reflexivity. Qed.
+Lemma ndc_set_pend v s : ndc (set_pend v s) = ndc s. Proof. reflexivity. Qed.
+Lemma ndc_set_idx v s : ndc (set_idx v s) = ndc s. Proof. reflexivity. Qed.
+Lemma ndc_set_next v s : ndc (set_next v s) = ndc s. Proof. reflexivity. Qed.
+Lemma ndc_set_cur_exp v s : ndc (set_cur_exp v s) = ndc s. Proof. reflexivity. Qed.
+Lemma ndc_set_cur_fr v s : ndc (set_cur_fr v s) = ndc s. Proof. reflexivity. Qed.
+Lemma ndc_set_sent v s : ndc (set_sent v s) = ndc s. Proof. reflexivity. Qed.
+Lemma ndc_set_exited v s : ndc (set_exited v s) = ndc s. Proof. reflexivity. Qed.
+Lemma ndc_set_scq v s : ndc (set_scq v s) = ndc s. Proof. reflexivity. Qed.
+Lemma ndc_set_pc v s : ndc (set_pc v s) = ndc s. Proof. reflexivity. Qed.
+Lemma ndc_on_sm g s : ndc (on_sm g s) = ndc s. Proof. reflexivity. Qed.
+Lemma idx_set_sm v s : idx (set_sm v s) = idx s. Proof. reflexivity. Qed.
+Lemma idx_set_wf v s : idx (set_wf v s) = idx s. Proof. reflexivity. Qed.
+Lemma idx_set_rf v s : idx (set_rf v s) = idx s. Proof. reflexivity. Qed.
+Lemma idx_set_ffd v s : idx (set_ffd v s) = idx s. Proof. reflexivity. Qed.
+Lemma idx_set_dof v s : idx (set_dof v s) = idx s. Proof. reflexivity. Qed.
+Lemma idx_set_ccb v s : idx (set_ccb v s) = idx s. Proof. reflexivity. Qed.
+Lemma idx_set_detached v s : idx (set_detached v s) = idx s. Proof. reflexivity. Qed.
+Lemma idx_set_ndc v s : idx (set_ndc v s) = idx s. Proof. reflexivity. Qed.
+Lemma idx_set_responded v s : idx (set_responded v s) = idx s. Proof. reflexivity. Qed.
+Lemma idx_set_pend v s : idx (set_pend v s) = idx s. Proof. reflexivity. Qed.
+Lemma idx_set_idx v s : idx (set_idx v s) = v. Proof. reflexivity. Qed.
+Lemma idx_set_next v s : idx (set_next v s) = idx s. Proof. reflexivity. Qed.
+Lemma idx_set_cur_exp v s : idx (set_cur_exp v s) = idx s. Proof. reflexivity. Qed.
+Lemma idx_set_cur_fr v s : idx (set_cur_fr v s) = idx s. Proof. reflexivity. Qed.
+Lemma idx_set_sent v s : idx (set_sent v s) = idx s. Proof. reflexivity. Qed.
+Lemma idx_set_exited v s : idx (set_exited v s) = idx s. Proof. reflexivity. Qed.
+Lemma idx_set_scq v s : idx (set_scq v s) = idx s. Proof. reflexivity. Qed.
+Lemma idx_set_pc v s : idx (set_pc v s) = idx s. Proof. reflexivity. Qed.
+Lemma idx_on_sm g s : idx (on_sm g s) = idx s. Proof. reflexivity. Qed.
+Lemma next_set_sm v s : next (set_sm v s) = next s. Proof. reflexivity. Qed.
+Lemma next_set_wf v s : next (set_wf v s) = next s. Proof. reflexivity. Qed.
+Lemma next_set_rf v s : next (set_rf v s) = next s. Proof. reflexivity. Qed.
+Lemma next_set_ffd v s : next (set_ffd v s) = next s. Proof. reflexivity. Qed.
+Lemma next_set_dof v s : next (set_dof v s) = next s. Proof. reflexivity. Qed.
+Lemma next_set_ccb v s : next (set_ccb v s) = next s. Proof. reflexivity. Qed.
+Lemma next_set_detached v s : next (set_detached v s) = next s. Proof. reflexivity. Qed.
+Lemma next_set_ndc v s : next (set_ndc v s) = next s. Proof. reflexivity. Qed.
+Lemma next_set_responded v s : next (set_responded v s) = next s. Proof. reflexivity. Qed.
+Lemma next_set_pend v s : next (set_pend v s) = next s. Proof. reflexivity. Qed.
+Lemma next_set_idx v s : next (set_idx v s) = next s. Proof. reflexivity. Qed.
+Lemma next_set_next v s : next (set_next v s) = v. Proof. reflexivity. Qed.
+Lemma next_set_cur_exp v s : next (set_cur_exp v s) = next s. Proof. reflexivity. Qed.
+Lemma next_set_cur_fr v s : next (set_cur_fr v s) = next s. Proof. reflexivity. Qed.
+Lemma next_set_sent v s : next (set_sent v s) = next s. Proof. reflexivity. Qed.
+Lemma next_set_exited v s : next (set_exited v s) = next s. Proof. reflexivity. Qed.
+Lemma next_set_scq v s : next (set_scq v s) = next s. Proof. reflexivity. Qed.
+Lemma next_set_pc v s : next (set_pc v s) = next s. Proof. reflexivity. Qed.
+Lemma next_on_sm g s : next (on_sm g s) = next s. Proof. reflexivity. Qed.
+Lemma detached_set_sm v s : detached (set_sm v s) = detached s. Proof. reflexivity. Qed.
+Lemma detached_set_wf v s : detached (set_wf v s) = detached s. Proof. reflexivity. Qed.
+Lemma detached_set_rf v s : detached (set_rf v s) = detached s. Proof. reflexivity. Qed.
+Lemma detached_set_ffd v s : detached (set_ffd v s) = detached s. Proof. reflexivity. Qed.
+Lemma detached_set_dof v s : detached (set_dof v s) = detached s. Proof. reflexivity. Qed.
+Lemma detached_set_ccb v s : detached (set_ccb v s) = detached s. Proof. reflexivity. Qed.
+Lemma detached_set_detached v s : detached (set_detached v s) = v. Proof. reflexivity. Qed.
+Lemma detached_set_ndc v s : detached (set_ndc v s) = detached s. Proof. reflexivity. Qed.
+Lemma detached_set_responded v s : detached (set_responded v s) = detached s. Proof. reflexivity. Qed.
+Lemma detached_set_pend v s : detached (set_pend v s) = detached s. Proof. reflexivity. Qed.
+Lemma detached_set_idx v s : detached (set_idx v s) = detached s. Proof. reflexivity. Qed.
+Lemma detached_set_next v s : detached (set_next v s) = detached s. Proof. reflexivity. Qed.
+Lemma detached_set_cur_exp v s : detached (set_cur_exp v s) = detached s. Proof. reflexivity. Qed.
+Lemma detached_set_cur_fr v s : detached (set_cur_fr v s) = detached s. Proof. reflexivity. Qed.
+Lemma detached_set_sent v s : detached (set_sent v s) = detached s. Proof. reflexivity. Qed.
+Lemma detached_set_exited v s : detached (set_exited v s) = detached s. Proof. reflexivity. Qed.
+Lemma detached_set_scq v s : detached (set_scq v s) = detached s. Proof. reflexivity. Qed.
+Lemma detached_set_pc v s : detached (set_pc v s) = detached s. Proof. reflexivity. Qed.
+Lemma detached_on_sm g s : detached (on_sm g s) = detached s. Proof. reflexivity. Qed.
+Lemma exited_set_sm v s : exited (set_sm v s) = exited s. Proof. reflexivity. Qed.
+Lemma exited_set_wf v s : exited (set_wf v s) = exited s. Proof. reflexivity. Qed.
+Lemma exited_set_rf v s : exited (set_rf v s) = exited s. Proof. reflexivity. Qed.
+Lemma exited_set_ffd v s : exited (set_ffd v s) = exited s. Proof. reflexivity. Qed.
+Lemma exited_set_dof v s : exited (set_dof v s) = exited s. Proof. reflexivity. Qed.
+Lemma exited_set_ccb v s : exited (set_ccb v s) = exited s. Proof. reflexivity. Qed.
+Lemma exited_set_detached v s : exited (set_detached v s) = exited s. Proof. reflexivity. Qed.
+Lemma exited_set_ndc v s : exited (set_ndc v s) = exited s. Proof. reflexivity. Qed.
+Lemma exited_set_responded v s : exited (set_responded v s) = exited s. Proof. reflexivity. Qed.
+Lemma exited_set_pend v s : exited (set_pend v s) = exited s. Proof. reflexivity. Qed.
+Lemma exited_set_idx v s : exited (set_idx v s) = exited s. Proof. reflexivity. Qed.
+Lemma exited_set_next v s : exited (set_next v s) = exited s. Proof. reflexivity. Qed.
+Lemma exited_set_cur_exp v s : exited (set_cur_exp v s) = exited s. Proof. reflexivity. Qed.
+Lemma exited_set_cur_fr v s : exited (set_cur_fr v s) = exited s. Proof. reflexivity. Qed.
+Lemma exited_set_sent v s : exited (set_sent v s) = exited s. Proof. reflexivity. Qed.
+Lemma exited_set_exited v s : exited (set_exited v s) = v. Proof. reflexivity. Qed.
+Lemma exited_set_scq v s : exited (set_scq v s) = exited s. Proof. reflexivity. Qed.
+Lemma exited_set_pc v s : exited (set_pc v s) = exited s. Proof. reflexivity. Qed.
+Lemma exited_on_sm g s : exited (on_sm g s) = exited s. Proof. reflexivity. Qed.
+Lemma pend_set_sm v s : pend (set_sm v s) = pend s. Proof. reflexivity. Qed.
+Lemma pend_set_wf v s : pend (set_wf v s) = pend s. Proof. reflexivity. Qed.
+Lemma pend_set_rf v s : pend (set_rf v s) = pend s. Proof. reflexivity. Qed.
+Lemma pend_set_ffd v s : pend (set_ffd v s) = pend s. Proof. reflexivity. Qed.
+Lemma pend_set_dof v s : pend (set_dof v s) = pend s. Proof. reflexivity. Qed.
+Lemma pend_set_ccb v s : pend (set_ccb v s) = pend s. Proof. reflexivity. Qed.
+Lemma pend_set_detached v s : pend (set_detached v s) = pend s. Proof. reflexivity. Qed.
+Lemma pend_set_ndc v s : pend (set_ndc v s) = pend s. Proof. reflexivity. Qed.
+Lemma pend_set_responded v s : pend (set_responded v s) = pend s. Proof. reflexivity. Qed.
+Lemma pend_set_pend v s : pend (set_pend v s) = v. Proof. reflexivity. Qed.
+Lemma pend_set_idx v s : pend (set_idx v s) = pend s. Proof. reflexivity. Qed.
+Lemma pend_set_next v s : pend (set_next v s) = pend s. Proof. reflexivity. Qed.
+Lemma pend_set_cur_exp v s : pend (set_cur_exp v s) = pend s. Proof. reflexivity. Qed.
+Lemma pend_set_cur_fr v s : pend (set_cur_fr v s) = pend s. Proof. reflexivity. Qed.
+Lemma pend_set_sent v s : pend (set_sent v s) = pend s. Proof. reflexivity. Qed.
+Lemma pend_set_exited v s : pend (set_exited v s) = pend s. Proof. reflexivity. Qed.
+Lemma pend_set_scq v s : pend (set_scq v s) = pend s. Proof. reflexivity. Qed.
+Lemma pend_set_pc v s : pend (set_pc v s) = pend s. Proof. reflexivity. Qed.
+Lemma pend_on_sm g s : pend (on_sm g s) = pend s. Proof. reflexivity. Qed.
+Global Hint Rewrite pc_set_sm pc_set_wf pc_set_rf pc_set_ffd pc_set_dof pc_set_ccb pc_set_detached pc_set_ndc pc_set_responded pc_set_pend pc_set_idx pc_set_next pc_set_cur_exp pc_set_cur_fr pc_set_sent pc_set_exited pc_set_scq pc_set_pc pc_on_sm ndc_set_sm ndc_set_wf ndc_set_rf ndc_set_ffd ndc_set_dof ndc_set_ccb ndc_set_detached ndc_set_ndc ndc_set_responded ndc_set_pend ndc_set_idx ndc_set_next ndc_set_cur_exp ndc_set_cur_fr ndc_set_sent ndc_set_exited ndc_set_scq ndc_set_pc ndc_on_sm idx_set_sm idx_set_wf idx_set_rf idx_set_ffd idx_set_dof idx_set_ccb idx_set_detached idx_set_ndc idx_set_responded idx_set_pend idx_set_idx idx_set_next idx_set_cur_exp idx_set_cur_fr idx_set_sent idx_set_exited idx_set_scq idx_set_pc idx_on_sm next_set_sm next_set_wf next_set_rf next_set_ffd next_set_dof next_set_ccb next_set_detached next_set_ndc next_set_responded next_set_pend next_set_idx next_set_next next_set_cur_exp next_set_cur_fr next_set_sent next_set_exited next_set_scq next_set_pc next_on_sm detached_set_sm detached_set_wf detached_set_rf detached_set_ffd detached_set_dof detached_set_ccb detached_set_detached detached_set_ndc detached_set_responded detached_set_pend detached_set_idx detached_set_next detached_set_cur_exp detached_set_cur_fr detached_set_sent detached_set_exited detached_set_scq detached_set_pc detached_on_sm exited_set_sm exited_set_wf exited_set_rf exited_set_ffd exited_set_dof exited_set_ccb exited_set_detached exited_set_ndc exited_set_responded exited_set_pend exited_set_idx exited_set_next exited_set_cur_exp exited_set_cur_fr exited_set_sent exited_set_exited exited_set_scq exited_set_pc exited_on_sm pend_set_sm pend_set_wf pend_set_rf pend_set_ffd pend_set_dof pend_set_ccb pend_set_detached pend_set_ndc pend_set_responded pend_set_pend pend_set_idx pend_set_next pend_set_cur_exp pend_set_cur_fr pend_set_sent pend_set_exited pend_set_scq pend_set_pc pend_on_sm : c05.
+
 (* keep the conversion checker from unfolding the helpers when it re-checks cbn steps at Qed *)
-Global Opaque clear_callbacks on_connection_close stream_close_running conn_close respond emit.
+Global Opaque clear_callbacks on_connection_close stream_close_running conn_close respond emit on_sm.
